@@ -54,8 +54,54 @@ def interesting_uints(rng, text_safe):
     return rng.randint(0, lim)
 
 
+def _roundtrips(v, digits, mant_bits):
+    """does the positive rational v (a binary float with mant_bits of precision, normal range) survive printing with
+    `digits` significant decimal digits and reading back to the nearest float?  (exact arithmetic)"""
+    from fractions import Fraction
+    e10 = len(str(v.numerator // v.denominator)) - 1 if v >= 1 else -len(str(v.denominator // v.numerator))
+    while Fraction(10) ** e10 > v:
+        e10 -= 1
+    while Fraction(10) ** (e10 + 1) <= v:
+        e10 += 1
+    scale = Fraction(10) ** (digits - 1 - e10)
+    dec = Fraction(round(v * scale)) / scale
+    e2 = dec.numerator.bit_length() - dec.denominator.bit_length()
+    while Fraction(2) ** e2 > dec:
+        e2 -= 1
+    while Fraction(2) ** (e2 + 1) <= dec:
+        e2 += 1
+    ulp = Fraction(2) ** (e2 - (mant_bits - 1))
+    return round(dec / ulp) * ulp == v
+
+
+def hungry_f32(rng):
+    """a float that needs all FLT_DECIMAL_DIG = 9 significant digits (about 1.5% of the floats)"""
+    from fractions import Fraction
+    for _ in range(4000):
+        ex = rng.randint(127 - 40, 127 + 40)
+        mant = rng.getrandbits(23)
+        v = Fraction((1 << 23) | mant) * Fraction(2) ** (ex - 127 - 23)
+        if not _roundtrips(v, 8, 24):
+            return (rng.getrandbits(1) << 31) | (ex << 23) | mant
+    return 0x3c47ce0c                      # 1.0f / 82
+
+
+def hungry_f80(rng):
+    """an x87 long double that needs all LDBL_DECIMAL_DIG = 21 significant digits (about 1% of them)"""
+    from fractions import Fraction
+    for _ in range(4000):
+        ex = rng.randint(16383 - 40, 16383 + 40)
+        mant = (1 << 63) | rng.getrandbits(63)
+        v = Fraction(mant) * Fraction(2) ** (ex - 16383 - 63)
+        if not _roundtrips(v, 20, 64):
+            return (rng.getrandbits(1) << 79) | (ex << 64) | mant
+    return 0x3ffbf0f0f0f0f0f0f0f1          # 2.0L / 17
+
+
 def f32_bits(rng, finite):
     k = rng.random()
+    if k > 0.8:
+        return hungry_f32(rng)
     if k < 0.15:
         return rng.choice([0, 0x80000000, 0x3f800000, 0xbf800000, 1, 0x007fffff, 0x00800000, 0x7f7fffff, 0x3dcccccd])
     if not finite and k < 0.4:
@@ -91,6 +137,8 @@ def f80_bits(rng, finite):
         return rng.choice([0x7fff8000000000000000, 0xffff8000000000000000, 0x7fffc000000000000000,
                            0xffffc000000000000000, 0x7fff8000000000000001, 0x7fffc00000000000beef,
                            0xffffdeadbeefdeadbeef | (1 << 63)])
+    if k > 0.8:
+        return hungry_f80(rng)
     sign = rng.getrandbits(1)
     # keep decimal exponents moderate: the exact printf model is slow on the extremes
     ex = rng.choice([rng.randint(16383 - 70, 16383 + 70), rng.randint(16383 - 1100, 16383 + 1100)])
